@@ -19,7 +19,7 @@ YOUR TASK: make a change to the source code under {wt}/crates that BREAKS this p
  (c) the breakage needs something specific to manifest — a particular interleaving or schedule, a crash or fault at a particular point, a multi-step sequence of operations, an unusual input or size, or two cooperating sites that each look fine alone — NOT something that ordinary use or the existing tests expose at once.
 Make it a realistic bug a maintainer could plausibly introduce (refactoring slip, off-by-one, wrong ordering of two steps, a missed case, a wrong comparison), not sabotage that plainly disables a feature. Prefer a small diff (a few lines). Read the relevant code first; understand which invariants the existing tests pin down and choose a region they do not.
 
-DEMONSTRATION: write a test (a new #[test] in a new or existing test file inside the worktree) or a small program that FAILS with your change and PASSES without it. Verify both directions yourself (e.g. `git stash` the source change, keep the demo, run; then `git stash pop`, run again).
+DEMONSTRATION: write a test (a new #[test] in a new or existing test file inside the worktree) or a small program that FAILS with your change and PASSES without it. Verify both directions yourself (save the source change with `git diff -- crates > /tmp/seed-<id>-out/patch.diff`, undo it with `git apply -R`, run the demo, re-apply it with `git apply`, run again; do NOT use `git stash`: the stash is shared by all worktrees of the repository).
 
 DELIVER in {wt}-out/ :
   patch.diff   — `git diff` of the source change only (must apply to a clean checkout with `git apply`; do not include the demonstration in it)
